@@ -468,6 +468,12 @@ class CorrData(AsciiSerializable, SampledData, Broadcastable):
                 "writing %s to: %s.{dat,smp,cov}", type(self).__name__, path_prefix
             )
 
+            # remove the files of a previous instance first: if writing is
+            # interrupted, a remaining old file next to a new one would be read
+            # back without error as a mixture of both instances
+            for extension in ("smp", "cov", "dat"):
+                Path(f"{path_prefix}.{extension}").unlink(missing_ok=True)
+
             # append the extension, a prefix may contain dots (e.g. "nz_0.1")
             write_data(
                 Path(f"{path_prefix}.dat"),
